@@ -50,6 +50,9 @@ func (c16) Generate(r *sim.Rand, tier string) *sim.Scenario {
 	sc.Cfg["rngseed"] = float64(r.Intn(1 << 30))
 	if r.Bool(0.2) {
 		sc.Cfg["init"] = 1
+	} else if r.Bool(0.25) {
+		sc.Cfg["init"] = 2
+		sc.Data["initk"] = genLibInit(r)
 	} else {
 		zeros := r.Bool(0.1)
 		w, b := make([]float64, O), make([]float64, O)
@@ -139,12 +142,19 @@ func (prop c16) Execute(sc *sim.Scenario) *sim.Outcome {
 	}
 	sim.SeedLibraryRNG(uint64(sc.Cfg["rngseed"]))
 	fcc := &layers.FCConfig{Inputs: D, Outputs: O}
-	if sc.CfgInt("init") == 0 {
+	switch sc.CfgInt("init") {
+	case 0:
 		if len(sc.Data["W0"]) != O || len(sc.Data["B0"]) != O {
 			out.Discard = "malformed"
 			return out
 		}
 		fcc.Initializers = map[string]layers.Initializer{"Weight": hInit{sc.Data["W0"]}, "Bias": hInit{sc.Data["B0"]}}
+	case 2:
+		fcc.Initializers = libInitializers(sc.Data["initk"])
+		if fcc.Initializers == nil {
+			out.Discard = "malformed"
+			return out
+		}
 	}
 	fc, err := layers.NewFC(fcc)
 	if err != nil {
@@ -158,6 +168,10 @@ func (prop c16) Execute(sc *sim.Scenario) *sim.Outcome {
 	}
 	if !ws[0].Trainable || !ws[1].Trainable {
 		out.Fail("weights-pointers", "FC parameters are not marked trainable")
+		return fin()
+	}
+	if *ws[0].Value == *ws[1].Value {
+		out.Fail("weights-pointers", "W and B are one and the same tensor object after construction")
 		return fin()
 	}
 	ptr := [2]*tensor.Tensor{ws[0].Value, ws[1].Value}
